@@ -469,6 +469,7 @@ Property make() {
   p.rule = "plan = 1-4 variables (5 kinds + a two-component combination), 1-4 biases (10 templates), then 5-30 operations drawn from {run 1-5 steps, define variable/bias, state round trip of the module or one bias, "
            "component flags, delete bias/variable, a command picked from the library's command table with typed, missing, surplus, garbage or 20 kB arguments, get/set of known and unknown features, free-form garbage commands, addforce}; "
            "twin = same plan through the other route (configfile for config, save+load for savetostring+loadfromstring); non-trivial = at least one command and one step; distinct = hash of (operation-kind sequence, set of commands used)";
+  p.rule += " Later additions: modifycvcs right after the definition vs. coefficients defined so; a quarter of the plans install a scripted-force callback (addenergy, addforce) in the engine.";
   p.assumptions = {"agreement is checked right after each engine step, before any other command can change the module",
                    "script results carry 14 significant digits for variable values and forces (compared at 1e-12) and 6 for energies and atom forces (compared at 2e-5 / 1e-5)",
                    "commands that change what the engine owns (frame, timestep, targettemperature, molid) are issued as queries or malformed only; cv delete / reset / update are issued malformed only (their well-formed effect is covered by C13)",
